@@ -1720,6 +1720,11 @@ func (ctx *RequestCtx) TimeoutErrorWithCode(msg string, statusCode int) {
 func (ctx *RequestCtx) TimeoutErrorWithResponse(resp *Response) {
 	respCopy := &Response{}
 	resp.CopyTo(respCopy)
+	if resp.IsBodyStream() {
+		// CopyTo skips body streams: read the stream
+		// so the timeout response keeps its body.
+		respCopy.SetBody(resp.Body())
+	}
 	ctx.timeoutResponse = respCopy
 }
 
